@@ -1434,6 +1434,83 @@ namespace
   }
 
   ////////////////////////////////////////////////////////////////////////////
+  // Scenario 8: lateafter
+  //   n peers, one after the other: the peer sends `GET /a` with `Connection: close`; the server answers and ENDS the
+  //   connection (TLS: close_notify).  The peer reads up to that end and then — instead of closing — sends a second
+  //   request `GET /late` on the connection the server has ended, waits a little, and closes.  A request that arrives
+  //   after the library has ended the connection must not reach the application; every connection is signalled as
+  //   disconnected exactly once.
+  //   RESULT scenario=lateafter n=<n> connected=<n> disconnected=<n> handled=<n> late_handled=<0>
+  int scenario_lateafter(arg_map const& args)
+  {
+    long long n(0);
+    std::string err;
+    if (!get_int(args, "n", n, err))
+      return fail(err);
+    std::atomic<int> connected(0), disconnected(0), handled(0), late_handled(0);
+    ServerBox box;
+    if (!box.start([&](http_server_type& srv)
+        {
+          srv.request_received_event(
+            [&](http_connection::weak_pointer weak_ptr, http_request const& request, std::string const&)
+          {
+            if (request.uri() == "/late")
+              ++late_handled;
+            else
+              ++handled;
+            http_connection::shared_pointer connection(weak_ptr.lock());
+            if (connection)
+            {
+              via::http::tx_response response(via::http::response_status::code::OK);
+              connection->send(std::move(response), std::string(20000, 'x'));
+            }
+          });
+          srv.socket_connected_event([&connected](http_connection::weak_pointer) { ++connected; });
+          srv.socket_disconnected_event([&disconnected](http_connection::weak_pointer) { ++disconnected; });
+        }, 1, err))
+      return fail("server: " + err);
+
+    int peer_errors(0), ended(0);
+    for (long long i(0); i < n; ++i)
+    {
+      Peer peer;
+      if (!peer.connect(box.port(), true, 5000, err) ||
+          !peer.write_all("GET /a HTTP/1.1\r\nHost: localhost\r\nConnection: close\r\n\r\n", 2000))
+      { ++peer_errors; continue; }
+      // read until the server ends the connection
+      std::string got;
+      auto t0(clock_type::now());
+      bool closed(false);
+      while (ms_since(t0) < 3000)
+      {
+        Peer::Rd rd(peer.read_some(got, 3000 - ms_since(t0)));
+        if (rd == Peer::Rd::Closed) { closed = true; break; }
+        if (rd == Peer::Rd::Timeout) break;
+      }
+      if (closed)
+        ++ended;
+      // the peer's side is still open for writing: a late request
+      peer.write_all("GET /late HTTP/1.1\r\nHost: localhost\r\n\r\n", 500);
+      sleep_ms(200);
+      peer.close();
+    }
+    auto t0(clock_type::now());
+    while (ms_since(t0) < 2000 && disconnected.load() < connected.load())
+      sleep_ms(10);
+    int c(connected.load()), d(disconnected.load());
+    box.begin_shutdown();
+    box.finish(1500);
+
+    std::ostringstream os;
+    os << "RESULT scenario=lateafter n=" << n << " connected=" << c << " disconnected=" << d
+       << " handled=" << handled.load() << " late_handled=" << late_handled.load() << " ended=" << ended
+       << " errors=" << peer_errors << tail_keys(box);
+    printf("%s\n", os.str().c_str());
+    fflush(stdout);
+    return 0;
+  }
+
+  ////////////////////////////////////////////////////////////////////////////
   // Scenario 7: rstdisc
   //   n peers, one after the other: the peer sends a request; while the request handler is running (it blocks the
   //   server's only thread) the peer RESETS its connection (SO_LINGER 0), so the reset is in the server's socket but
@@ -1748,6 +1825,8 @@ int main(int argc, char* argv[])
       return scenario_twoshut(args);
     if (scenario == "rstdisc")
       return scenario_rstdisc(args);
+    if (scenario == "lateafter")
+      return scenario_lateafter(args);
   }
   catch (std::exception const& e)
   {
